@@ -57,9 +57,10 @@ Definition find_value (self : list attr) (anc : list (list attr)) (a : AId) : op
 Definition default_attr (a : AId) : option attr :=
   option_map (fun v => {| a_name := a; a_value := v; a_imp := false |}) (inherit_default a).
 
-(* resolve_inherit: the attribute that gets pushed (None = `return false`).  The copy keeps the
-   source's `important` flag, as the code does. *)
-Definition resolve_inherit (anc : list (list attr)) (a : AId) : option attr :=
+(* resolve_inherit: the attribute that gets pushed (None = `return false`): the value of the source (nearest
+   ancestor having it / the direct parent / the fallback table) with the `important` flag of the declaration
+   that says `inherit` (since 7ac03db; before, the source's flag was copied). *)
+Definition resolve_inherit_src (anc : list (list attr)) (a : AId) : option attr :=
   if is_inheritable a then
     match find (has_attr a) anc with
     | Some l => match get_attr a l with Some x => Some x | None => default_attr a end
@@ -70,12 +71,16 @@ Definition resolve_inherit (anc : list (list attr)) (a : AId) : option attr :=
     | p :: _ => match get_attr a p with Some x => Some x | None => default_attr a end
     | [] => default_attr a
     end.
+Definition with_flag (a : AId) (imp : bool) (x : attr) : attr :=
+  {| a_name := a; a_value := a_value x; a_imp := imp |}.
+Definition resolve_inherit (anc : list (list attr)) (a : AId) (imp : bool) : option attr :=
+  option_map (with_flag a imp) (resolve_inherit_src anc a).
 
 (* append_attribute: the attribute appended to the list, None when it returns false *)
 Definition resolve_value (anc : list (list attr)) (tag : EId) (a : AId) (v : string) (imp : bool) : option attr :=
   if is_dropped_attr a then None
   else if is_dropped_on tag a then None
-  else if allows_inherit_value a && String.eqb v inherit_keyword then resolve_inherit anc a
+  else if allows_inherit_value a && String.eqb v inherit_keyword then resolve_inherit anc a imp
   else Some {| a_name := a; a_value := v; a_imp := imp |}.
 
 (* the presentation-attribute copy loop of parse_svg_element (one iteration) *)
